@@ -540,6 +540,17 @@ func runC08(c *mon.Ctx) {
 				}
 			}
 		}
+		// every shortened form: the first k bytes, with and without a terminating F7 behind them (a message of a
+		// device with fewer fields than the standard one)
+		for k := 1; k < len(m); k++ {
+			for _, tail := range [][]byte{nil, {0xF7}, {0x00, 0xF7}, {0x7F}} {
+				mm := append(append([]byte(nil), m[:k]...), tail...)
+				classifySMF(c, mm)
+				classifyMidi(c, mm)
+				n++
+			}
+		}
+		c.Count("standard_messages_cut_short", int64(len(m)-1))
 		c.Count("standard_message_substitutions", n)
 		c.Count("strings_smf", n)
 		c.Count("strings_midi", n)
